@@ -1,10 +1,11 @@
 // c17: stream decoder / stream encoder of sonic against chunking reader and piecewise writer oracles.
 //
 // Generates cases (or reads them back with -replay), runs the real implementation, and writes
-//   -cases   one case per line, the input of the extracted Coq model (/verif/ocaml/C17/driver.ml)
-//   -impl    one line per case in the format the model driver prints, plus a 5th field holding the
-//            comparison with the property's own oracle (encoding/json.Decoder on the unchunked bytes;
-//            Marshal ++ newline for the encoder), which does not involve the model.
+//
+//	-cases   one case per line, the input of the extracted Coq model (/verif/ocaml/C17/driver.ml)
+//	-impl    one line per case in the format the model driver prints, plus a 5th field holding the
+//	         comparison with the property's own oracle (encoding/json.Decoder on the unchunked bytes;
+//	         Marshal ++ newline for the encoder), which does not involve the model.
 package main
 
 import (
@@ -84,12 +85,12 @@ func (r *chunkReader) Read(p []byte) (int, error) {
 // ------------------------------------------------------------------ case representation
 
 type dcase struct {
-	id     string
-	pcap   int
-	fin    string   // "E" or k
-	ops    string   // d m b
-	chunks []string // hex | hex!E | hex!k
-	sonicCfg bool   // run through sonic.ConfigDefault.NewDecoder instead of decoder.NewStreamDecoder (same line format)
+	id       string
+	pcap     int
+	fin      string   // "E" or k
+	ops      string   // d m b
+	chunks   []string // hex | hex!E | hex!k
+	sonicCfg bool     // run through sonic.ConfigDefault.NewDecoder instead of decoder.NewStreamDecoder (same line format)
 }
 
 func (c *dcase) line(avx2 bool) string {
@@ -229,9 +230,14 @@ func churn(pcap int) {
 				}
 			}
 		}
-		runtime.GC()
+		churnCount++
+		if churnCount%32 == 1 {
+			runtime.GC() // now and then also across a collection (sync.Pool drops its buffers then)
+		}
 	}
 }
+
+var churnCount = 0
 
 func runDec(c *dcase) (opres []string, log []int, seq []item, alias string) {
 	chunks, _, _, _ := parseChunks(c.chunks)
@@ -343,7 +349,7 @@ type stdRes struct {
 	vals   []interface{}
 	starts []int // offset of the first byte of each value
 	ends   []int // offset just after each value
-	ctl    bool // the oracle stopped at a control character inside a string (sonic accepts those by default)
+	ctl    bool  // the oracle stopped at a control character inside a string (sonic accepts those by default)
 	term   string
 	termAt int // offset of the first non-space byte after the last value
 }
@@ -862,9 +868,9 @@ type oracleWriter struct {
 	i    int
 	got  []byte
 	// facts for the property oracle
-	firstErr    error
+	firstErr     error
 	gotAtFailure int // bytes delivered before the first Write that returned an error
-	failed      bool
+	failed       bool
 }
 
 func (w *oracleWriter) Write(p []byte) (int, error) {
